@@ -142,6 +142,25 @@ def compare_fd(pp, torch, fn, inputs, cot, tol=2e-5):
     for gvec in ig:
         if any(not math.isfinite(v) for v in gvec):
             return 'gradient contains NaN/Inf: %s' % gvec
+    # the gradient of an input must not depend on which OTHER inputs require grad
+    if len(inputs) > 1:
+        for k in range(len(inputs)):
+            ins = [x.detach().clone().requires_grad_(i == k) for i, x in enumerate(inputs)]
+            try:
+                out = fn(*ins)
+                t = out.tensor() if isinstance(out, pp.LieTensor) else out
+                full = torch.zeros_like(t).reshape(-1)
+                full[:cot.numel()] = cot.reshape(-1)
+                gk = None
+                if t.requires_grad:      # otherwise the output does not depend on input k at all
+                    gk, = torch.autograd.grad(t, [ins[k]], full.reshape(t.shape), allow_unused=True)
+            except Exception as e:
+                return 'autograd raised %r when only input %d requires grad' % (e, k)
+            gk = [float(v) for v in gk.reshape(-1).tolist()] if gk is not None else None
+            if gk is None and any(v != 0.0 for v in ig[k]):
+                return 'input %d: autograd returns no gradient (None) when it is the only input requiring grad, but %s when all inputs require grad' % (k, [round(z, 6) for z in ig[k]])
+            if gk is not None and any(abs(u - v) > 1e-12 * max(1.0, abs(v)) for u, v in zip(gk, ig[k])):
+                return 'input %d: gradient %s when it is the only input requiring grad differs from %s when all inputs require grad' % (k, [round(z, 6) for z in gk], [round(z, 6) for z in ig[k]])
     fg = fd_grads(pp, torch, fn, inputs, cot)
     for k, (a, b) in enumerate(zip(ig, fg)):
         scale = max(1.0, max(abs(v) for v in b + a))
@@ -227,8 +246,16 @@ def confirm_explog(pp, torch, c):
     scale = max(1.0, max(abs(v) for v in gx))
     tol = 0.99e-7 * scale
     if g == 'Sim3':
-        na = float(mp.norm(A, 'inf'))
-        tol += 4.0 * na ** 6 * scale          # documented truncation of the sim3 series
+        # documented truncation of the sim3 series: Jl = sum_{k<=5} ad^k/(k+1)!  (remainder <= |ad|^6/5040 e^|ad|),
+        # Jl^-1 = I - ad/2 + ad^2/12 - ad^4/720  (next Bernoulli term ad^6/30240); |.| = max of the 1- and inf-norms
+        na = max(float(mp.norm(A, 'inf')), float(mp.norm(A, 1)))
+        g1 = float(sum(abs(v) for v in gz))
+        if op == 'Exp':
+            tol += 1.05 * g1 * na ** 6 / 5040.0 * math.exp(na)
+        elif na < 3.0:
+            tol += 1.05 * g1 * na ** 6 / 30240.0 / (1.0 - (na / 6.0) ** 2)
+        else:
+            tol += 4.0 * na ** 6 * scale
     err = max(abs(mp.mpf(gx[j]) - ref[j]) for j in range(k))
     if op == 'Log' and abs(gx[k]) != 0.0:
         return 'the extra slot of the gradient is %r, not 0' % gx[k]
@@ -429,6 +456,15 @@ def run(ctx):
             if f:
                 ctx.known_hit[key] = f['what']
                 break
+    # ---------------------------------------------------------------- every (group, op), every run: autograd of the real
+    # call (not the backward function in isolation) against left-perturbation finite differences at a generic point,
+    # including that an input's gradient does not depend on which other inputs require grad
+    for g in GROUPS:
+        for op in ('Mul', 'Inv', 'Act', 'Act4', 'Adj', 'AdjT', 'Exp', 'Log', 'Retr', 'matrix'):
+            ctx.case(('op-fd', g, op, rng.random()), branch='autograd-vs-fd-%s' % g)
+            f = fd_single(pp, torch, rng, g, op, 'generic')
+            if f:
+                ctx.violation('grad-wrong:%s:%s' % (g, op), f['what'], f)
     # ---------------------------------------------------------------- Jinvp is differentiated by plain autograd through
     # Log and so3_Jl_inv / calcQ (no hand-written backward): left-perturbation finite differences, every run
     for g in GROUPS:
